@@ -41,6 +41,59 @@ def multiline_block_header(case):
     return False
 
 
+def statement_after_multiline_token(case):
+    """KF-C03-statement-after-multiline-token: a multi-line comment (/* … */, 注：“ … ”) or — followed by ； — a multi-line text
+    literal that was opened on an indented line closes on a later physical line, and the start of another statement follows
+    on that closing line."""
+    src = _src_of_run(case)
+    if src is None:
+        return False
+    text = src.replace('\r\n', '\n').replace('\n\r', '\n').replace('\r', '\n')
+    i, n = 0, len(text)
+    line_start = 0
+
+    def indented(pos):
+        ls = text.rfind('\n', 0, pos) + 1
+        return text[ls:ls + 1] in (' ', '\t')
+
+    def rest_of_line(pos):
+        e = text.find('\n', pos)
+        return text[pos:] if e < 0 else text[pos:e]
+    while i < n:
+        ch = text[i]
+        if text.startswith('/*', i):
+            j = text.find('*/', i + 2)
+            if j < 0:
+                return False
+            if '\n' in text[i:j] and indented(i) and rest_of_line(j + 2).strip() and not rest_of_line(j + 2).strip().startswith(('//', '/*', '注')):
+                return True
+            i = j + 2
+            continue
+        if ch in '“「':
+            close = '”' if ch == '“' else '」'
+            depth, j = 1, i + 1
+            while j < n and depth:
+                if text[j] == ch:
+                    depth += 1
+                elif text[j] == close:
+                    depth -= 1
+                j += 1
+            if depth:
+                return False
+            is_comment = text[max(0, i - 12):i].rstrip().endswith(('：', ':')) and '注' in text[max(0, i - 12):i]
+            tail = rest_of_line(j).strip()
+            if '\n' in text[i:j] and indented(i):
+                if is_comment and tail and not tail.startswith(('//', '/*', '注')):
+                    return True
+                if not is_comment and tail.startswith(('；', ';')) and tail[1:].strip():
+                    return True
+            i = j
+            continue
+        i += 1
+    return False
+
+
 PREDICATES = {
     'KF-C03-multiline-header': multiline_block_header,
+    'KF-C03-statement-after-multiline-token': statement_after_multiline_token,
 }
